@@ -40,6 +40,9 @@ CHECKS = {
  "C12": dict(cat="exploration", sec="4 (C12)", technique="metamorphic testing: generated programs split over 2-4 files with computed pub/import closure, compiled in many file orders and compared with the single-file reference interpreter; negative mutants (missing pub / import); compile histories through one Compiler compared with compile-alone IR",
    text="A split program must be accepted in every order of the file list and behave exactly like the single-file program; removing one needed `pub` or `import` (also when only transitively reachable) must be rejected with E401/E402/E405; a module's IR must be byte-identical whether it is compiled alone or after other unrelated modules.",
    note="Trusted: the dependency closure in harness/src/modsplit.rs and the reference interpreter."),
+ "C13": dict(cat="exploration", sec="4 (C13)", technique="mutation- and grammar-based generation of rejected inputs (incl. multi-byte text, CRLF, EOF faults, planted characters and planted ill-formed declarations, module sets); per-diagnostic invariants (catalogue, location, covered text, renderability) and differential re-compilation in fresh processes for determinism",
+   text="For every diagnostic of every generated rejected or lint-carrying input: its code is in the published catalogue, its primary location lies in a compiled file and starts on the reported line, name-carrying diagnostics cover exactly that name, a planted character is covered, the report renders in all four colour/charset configurations (no ESC without colour, ASCII with ascii arrows). On a sample, and on every multi-file case, two fresh processes must reproduce verdict, ordered diagnostics, locations, rendered text and all IR text byte for byte.",
+   note="Catalogue = docs/errors.md headings (parsed live) + catalogue_extra.json (8 frozen codes). Crashing inputs are discarded and counted (C02's subject)."),
  "C14": dict(cat="exploration", sec="4 (C14)", technique="exhaustive small-scope + grammar-based generation, three-way differential (alpha lexer / delta lexer / independent reference lexer), proptest choice-vector shrinking",
    text="Every string of length <= 3 (quick) / <= 4 (thorough) over a 48-symbol alphabet, plus generated token streams with generator-known expected tokens and planted malformed lexemes, are lexed by both real lexers and by an independent reference lexer; kinds, payloads, suffix types, byte spans, lines and error codes must agree. Held-on-everything-explored, exhaustive within the stated small scope.",
    note="Trusted: the reference lexer (harness/src/reflex.rs) as a reading of docs/errors.md; normalisations listed in the evidence assumptions."),
